@@ -4333,13 +4333,17 @@ impl<'a> Tyck<'a> for TyEnvT<su::TermId> {
                 }
             }
             | Tm::Var(def) => {
-                let annotation =
-                    tycker.statics.annotations_var.get(&def).copied().unwrap_or_else(|| {
-                        panic!(
-                            "resolved variable `{}` reached the checker before its binder",
-                            tycker.def_name(&def).plain()
-                        )
-                    });
+                // Name resolution orders every use after its binder except inside a recursive
+                // group, whose annotations are checked before the members are bound.
+                let Some(annotation) = tycker.statics.annotations_var.get(&def).copied() else {
+                    tycker.err_k(
+                        TyckError::Expressivity(
+                            "a definition is used in an annotation of its own recursive group \
+                             before it is bound",
+                        ),
+                        std::panic::Location::caller(),
+                    )?
+                };
                 let ann = {
                     match switch {
                         | Switch::Syn => annotation,
